@@ -22,6 +22,11 @@ REL_CONDS = [{"rel": "viewer"}, {"rel": {"relation": "owner", "resource": {"attr
              {"not": {"rel": "banned"}}, {"rel": {"relation": "viewer", "subject": "group:g1", "ctx": {"ip": "10.0.0.1"}}}]
 
 
+import datetime as _dt
+
+DT_LITERAL = _dt.datetime(2999, 1, 1, tzinfo=_dt.timezone.utc)
+
+
 def rich_rule(rng, i):
     rule = {"id": "r%d" % i, "effect": rng.choice(["permit", "permit", "deny"]),
             "actions": rng.choice([["read"], ["*"], ["write"], ["read", "write"]]),
@@ -34,7 +39,17 @@ def rich_rule(rng, i):
                                         {"hasAny": [{"attr": "subject.roles"}, ["admin", "staff"]]},
                                         {"in": ["staff", {"attr": "subject.roles"}]},
                                         {"<": [{"attr": "subject.id"}, 5]}, {"startsWith": [{"attr": "subject.attrs.dept"}, "en"]},
-                                        {"before": [{"attr": "context.now"}, "2999-01-01T00:00:00Z"]}, False, True])
+                                        {"before": [{"attr": "context.now"}, "2999-01-01T00:00:00Z"]}, False, True,
+                                        # logic trees whose operands are ill-typed for some requests (short-circuit, not/or)
+                                        {"not": {"or": [{"<": [{"attr": "subject.id"}, 5]}, {"==": [{"attr": "context.n"}, 6]}]}},
+                                        {"or": [{"<": [{"attr": "subject.attrs.dept"}, 3]}, True]},
+                                        {"or": [{"==": [{"attr": "context.n"}, 5]}, {"<": [{"attr": "subject.attrs.dept"}, 3]}]},
+                                        {"and": [{"==": [{"attr": "context.n"}, 6]}, {">": [{"attr": "subject.id"}, 1]}]},
+                                        {"not": {"and": [False, {"startsWith": [{"attr": "context.n"}, "x"]}]}},
+                                        {"not": {"or": [{">": [{"attr": "context.missing"}, 3]}, False]}},
+                                        # a policy need not be JSON text: datetime objects as literals (json.dumps cannot serialise them)
+                                        {"after": [DT_LITERAL, {"attr": "context.now"}]},
+                                        {"before": [{"attr": "context.missing"}, DT_LITERAL]}])
     elif r < 0.4:
         rule["condition"] = copy.deepcopy(rng.choice(REL_CONDS))
     ob = rng.choice(OBLS)
@@ -108,7 +123,8 @@ def random_cases(chk, n):
         for req in requests(rng, 2):
             out.append({"fam": "random", "policy": pol, "req": req, "strict": rng.random() < 0.3,
                         "resolver": rng.choice([None, None, "static", "raising"]),
-                        "checker": rng.choice([None, "sync", "sync", "async", "raising"]),
+                        "checker": rng.choice([None, "sync", "sync", "async", "raising", "def-coroutine", "async-callable",
+                                               "decorated-async", "async-raising"]),
                         "cache": rng.random() < 0.4})
     return out
 
@@ -151,6 +167,48 @@ def run_impl_one(c):
             table.append([subject, relation, resource, copy.deepcopy(context), None])
             raise RuntimeError("rebac down")
 
+    # asynchronous checkers whose check() is not literally an `async def` (delegating wrappers, clients
+    # returning awaitables): every one must be awaited like an async def
+    class DefCoroutineChecker(SyncChecker):
+        def check(self, subject, relation, resource, *, context=None):  # type: ignore[override]
+            return AsyncChecker.check(self, subject, relation, resource, context=context)
+
+    class _ACall:
+        def __init__(self, owner):
+            self.owner = owner
+
+        async def __call__(self, subject, relation, resource, *, context=None):
+            await asyncio.sleep(0)
+            return SyncChecker.check(self.owner, subject, relation, resource, context=context)
+
+    class AsyncCallableChecker(SyncChecker):
+        def __init__(self):
+            self.check = _ACall(self)  # type: ignore[method-assign]
+
+    def _plain_decorator(fn):
+        import functools
+
+        @functools.wraps(fn)
+        def wrapper(*a, **k):
+            return fn(*a, **k)
+        return wrapper
+
+    class DecoratedAsyncChecker(SyncChecker):
+        @_plain_decorator
+        async def check(self, subject, relation, resource, *, context=None):  # type: ignore[override]
+            await asyncio.sleep(0)
+            return SyncChecker.check(self, subject, relation, resource, context=context)
+
+    class AsyncRaisingChecker(SyncChecker):
+        async def check(self, subject, relation, resource, *, context=None):  # type: ignore[override]
+            table.append([subject, relation, resource, copy.deepcopy(context), None])
+            await asyncio.sleep(0)
+            raise RuntimeError("rebac down (while awaited)")
+
+    CHECKERS = {"sync": SyncChecker, "async": AsyncChecker, "raising": RaisingChecker,
+                "def-coroutine": DefCoroutineChecker, "async-callable": AsyncCallableChecker,
+                "decorated-async": DecoratedAsyncChecker, "async-raising": AsyncRaisingChecker}
+
     class Sink:
         def __init__(self, fail=False):
             self.payloads, self.fail = [], fail
@@ -186,7 +244,7 @@ def run_impl_one(c):
         kw["role_resolver"] = R()
     ck = c.get("checker")
     if ck:
-        kw["relationship_checker"] = {"sync": SyncChecker, "async": AsyncChecker, "raising": RaisingChecker}[ck]()
+        kw["relationship_checker"] = CHECKERS[ck]()
     sf = c.get("sinks_fail")      # True / "both": both sinks raise; "metrics" / "log": only that one raises
     sink, metrics = Sink(fail=sf in (True, "both", "log")), Metrics(fail=sf in (True, "both", "metrics"))
     kw["logger_sink"], kw["metrics"] = sink, metrics
@@ -217,7 +275,7 @@ def run_impl_one(c):
     warm = []
     if c.get("warm", True):
         try:
-            warm = _warm_runs(c, kw, subj, act, res, ctx, SyncChecker, AsyncChecker, RaisingChecker)
+            warm = _warm_runs(c, kw, subj, act, res, ctx, CHECKERS)
         except Exception as e:  # noqa: BLE001  (harness trouble must not masquerade as a verdict)
             warm = [{"how": "harness-error", "decision": ["HarnessError", repr(e)[:200]]}]
     return {"decisions": decisions, "tables": tables, "payloads": sink.payloads, "incs": metrics.incs,
@@ -241,7 +299,7 @@ def _siblings(req):
     return out
 
 
-def _warm_runs(c, kw, subj, act, res, ctx, SyncChecker, AsyncChecker, RaisingChecker):
+def _warm_runs(c, kw, subj, act, res, ctx, CHECKERS):
     """the same request on engines with a past: (1) after sibling requests on the same Guard, (2) after the
     policy object was edited in place and re-installed with set_policy(same object), (3) after set_policy(fresh
     object) on a Guard created with another policy.  Every one must give the decision of a fresh Guard."""
@@ -253,7 +311,7 @@ def _warm_runs(c, kw, subj, act, res, ctx, SyncChecker, AsyncChecker, RaisingChe
         kw2 = {k: v for k, v in kw.items() if k in ("role_resolver",)}
         ck = c.get("checker")
         if ck:
-            kw2["relationship_checker"] = {"sync": SyncChecker, "async": AsyncChecker, "raising": RaisingChecker}[ck]()
+            kw2["relationship_checker"] = CHECKERS[ck]()
         if c.get("cache"):
             kw2["cache"] = DefaultInMemoryCache(64)
         return Guard(policy, strict_types=bool(c.get("strict")), **kw2)
@@ -356,3 +414,24 @@ def run_model(cases, impls, entry="engine.eval"):
     lines = [lib.model_call(entry, bool(c.get("strict")), c["policy"], c["req"], i["resolved"], model_table(c, i))
              for c, i in zip(cases, impls)]
     return [lib.dec(x) for x in lib.run_model(RUNNER, lines)]
+
+
+def retry_unknown_with_sync_table(cases, impls, results_by_entry):
+    """When the model asks a relationship query the implementation never put to its checker (so the recorded table
+    has no answer), and the checker is not the plain synchronous one, take the table from a run with the plain
+    synchronous checker over the same relationship data and let the model answer with that: the implementation's
+    decision (made with the exotic checker) is then judged against what the relationship data really say.
+    results_by_entry: {entry: list of model outputs}; updated in place.  Returns the indices retried."""
+    idx = [k for k, c in enumerate(cases)
+           if c.get("checker") not in (None, "sync")
+           and any(res[k] == ["UnknownRelQuery"] for res in results_by_entry.values())]
+    if not idx:
+        return []
+    sync_impls = [run_impl_one({**cases[k], "checker": "sync", "warm": False, "cache": False}) for k in idx]
+    for entry, res in results_by_entry.items():
+        lines = [lib.model_call(entry, bool(cases[k].get("strict")), cases[k]["policy"], cases[k]["req"], impls[k]["resolved"],
+                                si["tables"][0]) for k, si in zip(idx, sync_impls)]
+        outs = [lib.dec(x) for x in lib.run_model(RUNNER, lines)]
+        for k, o in zip(idx, outs):
+            res[k] = o
+    return idx
